@@ -99,10 +99,10 @@ PROPS['C01'] = {
 
 PROPS['C02'] = {
     'level': 'other',
-    'verus_units': ['hashiter', 'lemma_cms'],
+    'verus_units': ['hashiter', 'cms', 'lemma_cms'],
     'kani': {'quick': CMS_ADD_QUICK + CMS_MERGE[:1], 'thorough': CMS_ADD_THOROUGH + CMS_MERGE[1:]},
-    'explanation': 'Kani one-step contract harnesses on the real add_n/add/query_point/merge/clear from ARBITRARY table contents with a fully symbolic hasher (bounded in (w,d) and key universe, unbounded in history and counter values); Verus: hash iterator positions in range for all (m,k) and the history lemma (contracts => never underestimates, never exceeds total) for all histories.',
-    'trusted_base': COMMON_TRUST + [HASH_TRUST, 'lemma_cms.vrs states the add_n/merge contracts as spec predicates; their correspondence to the Kani assertions is by inspection (same sentences)'],
+    'explanation': 'Verus proof (unbounded in w, d, counter type, hasher) of the real add_n/add: n is added to exactly the cell of obj in every row, all other cells unchanged, the result is min(old cells)+n, overflow panics are the only precondition. query_point/merge/clear/is_empty (iterator chains outside the Verus subset): Kani one-step contract harnesses from ARBITRARY table contents with a fully symbolic hasher (bounded in (w,d) and key universe, unbounded in history and counter values); Verus: hash iterator positions in range for all (m,k) and the history lemma (contracts => never underestimates, never exceeds total) for all histories.',
+    'trusted_base': COMMON_TRUST + [HASH_TRUST, 'unit cms: the num_traits bounds on the counter type are ONE contract trait `Counter` (exact checked_add or None, min, clone, zero/one)', 'lemma_cms.vrs states the add_n/merge contracts as spec predicates; their correspondence to the Kani assertions is by inspection (same sentences)'],
     'assumptions': ['(w,d) grid {(1,1),(2,3),(2,2),(4,1),(1,4)} quick, +(3,2) thorough; 3-key universe', 'overflowing adds panic (checked_add().unwrap()) and are excluded by assume'],
     'not_decided': ['(w,d) outside the grid: covered only through the unbounded HashIter range proof + generic code path'],
 }
@@ -144,7 +144,7 @@ PROPS['C10'] = {
 
 PROPS['C11'] = {
     'level': 'other',
-    'verus_units': ['helpers', 'bloom', 'cuckoo', 'hll', 'reservoir', 'lossy', 'cmsheap'],
+    'verus_units': ['helpers', 'bloom', 'cuckoo', 'hll', 'reservoir', 'lossy', 'cmsheap', 'cms'],
     'kani': {
         'quick': [
             ('helpers.rs', 'c11_all_zero_intvector_u64', 'complete in element_bits (1..=64); bounded(len<=4)'),
